@@ -8,7 +8,10 @@ import (
 	"go/types"
 	"os"
 	"strings"
+	"sync/atomic"
 )
+
+var gCrossChecked, gCrossDisagree int64
 
 func (in *Interp) inputVar(name, kind string, sort Sort) *Term {
 	t := in.tt.Var(name, sort)
@@ -467,6 +470,21 @@ func (in *Interp) obligation(fr *frame, c Value, label string) {
 		}
 	case *Term:
 		v := in.checkWith(in.tt.Not(x))
+		if v == Unsat && in.sol.mirror != nil {
+			// thorough tier: the second solver must agree on every discharged obligation
+			r := in.tt.Ref(in.tt.Not(x))
+			in.flush()
+			in.sol.Send("(push)", "(assert "+r+")")
+			v2, ok := in.sol.CheckSatMirror()
+			in.sol.Send("(pop)")
+			if ok {
+				atomic.AddInt64(&gCrossChecked, 1)
+				if v2 == Sat {
+					atomic.AddInt64(&gCrossDisagree, 1)
+					v = Unknown
+				}
+			}
+		}
 		switch v {
 		case Unsat:
 			ob.Verdict = "unsat"
